@@ -1,4 +1,5 @@
 import ArrProofs.Lemmas.C07
+import ArrProofs.Lemmas.GenCore
 /-!
 # C07 — reshaping operations never reorder, drop or invent elements
 
@@ -472,5 +473,65 @@ example : (⟨[1, 2, 3], [1, 3, 1]⟩ : Arr Nat).squeeze (some [3]) = .err .Axis
   squeeze_out_of_range _ [3] (by decide)
 example : (⟨[7, 8], [2]⟩ : Arr Nat).expandDims [3] = .err .AxisOutOfBounds :=
   expandDims_out_of_range _ [3] (by decide)
+
+/-! ## The same properties for the code as TRANSLATED FROM THE SOURCE
+
+`ArrModel.Gen.Core.Array_reshape`, `Array_ravel`, `Array_atleast`, `Array_resize`, `Array_create` are regenerated from
+`src/core/operations/manipulate.rs` / `create.rs` by `tools/rs2lean.py` on every run; `ArrProofs/Lemmas/GenCore.lean` proves
+them equal to the hand-written model for all inputs, so the theorems above transfer. -/
+
+open ArrModel.Gen.Core in
+/-- **reshape (translated source)** succeeds exactly when the element count matches, and then re-wraps the very same element list -/
+theorem gen_reshape_ok_iff (a : Arr α) (s : List Nat) (r : Arr α) :
+    Array_reshape a s = .ok r ↔ s.prod = a.elems.length ∧ r = ⟨a.elems, s⟩ := by
+  rw [reshape_eq]; exact reshape_ok_iff a s r
+
+open ArrModel.Gen.Core in
+theorem gen_reshape_err (a : Arr α) (s : List Nat) (h : s.prod ≠ a.elems.length) :
+    Array_reshape a s = .err .ShapeMustMatchValuesLength := by
+  rw [reshape_eq]; exact reshape_err a s h
+
+open ArrModel.Gen.Core in
+/-- **ravel (translated source)** always succeeds, keeps the elements, the shape is `[len]`, the result is well formed -/
+theorem gen_ravel_spec (a : Arr α) :
+    ∃ r, Array_ravel a = .ok r ∧ r.elems = a.elems ∧ r.shape = [a.elems.length] ∧ r.WF :=
+  ⟨a.ravel, ravel_eq a, (ravel_spec a).1, (ravel_spec a).2.1, (ravel_spec a).2.2⟩
+
+open ArrModel.Gen.Core in
+/-- **atleast (translated source)** keeps the element list; (rank below `usize::MAX`, where `!ndim >= 1` holds) -/
+theorem gen_atleast_elems (a r : Arr α) (n : Nat) (hr : a.ndim < Rs.USIZE - 1) (h : Array_atleast a n = .ok r) :
+    r.elems = a.elems := by
+  rw [atleast_eq a n hr] at h; exact atleast_elems a r n h
+
+open ArrModel.Gen.Core in
+theorem gen_atleast_ok (a : Arr α) (n : Nat) (hr : a.ndim < Rs.USIZE - 1) (hwf : a.WF) (hn : n ≤ 3) :
+    ∃ r, Array_atleast a n = .ok r ∧ r.elems = a.elems ∧ r.WF ∧ (1 ≤ a.ndim → r.ndim = max a.ndim n) := by
+  rw [atleast_eq a n hr]; exact atleast_ok a n hwf hn
+
+open ArrModel.Gen.Core in
+theorem gen_atleast_unsupported (a : Arr α) (n : Nat) (hr : a.ndim < Rs.USIZE - 1) (hn : 3 < n) :
+    Array_atleast a n = .err .UnsupportedDimension := by
+  rw [atleast_eq a n hr]; exact atleast_unsupported a n hn
+
+open ArrModel.Gen.Core in
+/-- **resize (translated source) fills the target shape by cycling through the source elements in order** -/
+theorem gen_resize_at (a : Arr α) (s : List Nat) (hne : a.elems ≠ []) :
+    ∃ r, Array_resize a s = .ok r ∧ r.shape = s ∧ r.WF ∧
+      ∀ i, i < s.prod → r.elems[i]? = a.elems[i % a.elems.length]? := by
+  rw [resize_eq]; exact resize_at a s hne
+
+open ArrModel.Gen.Core in
+theorem gen_resize_empty (a : Arr α) (s : List Nat) (he : a.elems = []) :
+    (s.prod = 0 → Array_resize a s = .ok ⟨[], s⟩) ∧ (s.prod ≠ 0 → Array_resize a s = .err .ShapeMustMatchValuesLength) := by
+  rw [resize_eq]; exact resize_empty a s he
+
+open ArrModel.Gen.Core in
+/-- **create with ndmin (translated source)** is the modelled `create`: left-pads the shape with ones, keeps the elements -/
+theorem gen_create_eq (elems : List α) (shape : List Nat) (ndmin : Option Nat) :
+    Array_create elems shape ndmin = Arr.create elems shape ndmin := create_eq elems shape ndmin
+
+example : ArrModel.Gen.Core.Array_reshape (⟨[1, 2, 3, 4, 5, 6], [2, 3]⟩ : Arr Nat) [3, 2] = .ok ⟨[1, 2, 3, 4, 5, 6], [3, 2]⟩ := by decide
+example : ArrModel.Gen.Core.Array_resize (⟨[1, 2, 3], [3]⟩ : Arr Nat) [2, 4] = .ok ⟨[1, 2, 3, 1, 2, 3, 1, 2], [2, 4]⟩ := by decide
+example : ArrModel.Gen.Core.Array_atleast (⟨[1, 2, 3], [3]⟩ : Arr Nat) 3 = .ok ⟨[1, 2, 3], [1, 3, 1]⟩ := by decide
 
 end ArrModel.C07
